@@ -261,7 +261,7 @@ func pipeTargetPort(kind string) string {
 	switch kind {
 	case "CONNECT":
 		return "8080"
-	case "MITMGET":
+	case "MITMGET", "MITMGEThost":
 		return "443"
 	}
 	return "80"
@@ -343,7 +343,7 @@ func pipeFwdCfg(c *pipeCase, host string) fwdCfg {
 	case "pac":
 		fc.PAC = pacString(c.Cfg.Up.V)
 	}
-	fc.MITM = c.Req.Kind == "MITMGET"
+	fc.MITM = c.Req.Kind == "MITMGET" || c.Req.Kind == "MITMGEThost"
 	sh, sp := pipeSelf(c, strings.Trim(host, "[]"))
 	if strings.Contains(sh, ":") {
 		sh = "[" + sh + "]"
@@ -618,10 +618,13 @@ func (pe *pipeEnv) runCase(c *pipeCase) map[string]any {
 	}
 	path := c.pathPrefix + fmt.Sprintf("/p%d?x=%d", c.idx, c.idx)
 	method := "GET"
+	tunnelHost := host
 	var final *wireMsg
 	switch c.Req.Kind {
 	case "GET":
 		err = cl.send([]byte("GET http://" + host + path + " HTTP/1.1\r\nHost: " + host + "\r\n" + hdrs(cred, via) + "\r\n"))
+	case "GETorigin":
+		err = cl.send([]byte("GET " + path + " HTTP/1.1\r\nHost: " + host + "\r\n" + hdrs(cred, via) + "\r\n"))
 	case "GET10":
 		err = cl.send([]byte("GET http://" + host + path + " HTTP/1.0\r\nHost: " + host + "\r\n" + hdrs(cred, via) + "\r\n"))
 	case "POST":
@@ -630,13 +633,16 @@ func (pe *pipeEnv) runCase(c *pipeCase) map[string]any {
 	case "CONNECT":
 		method = "CONNECT"
 		err = cl.send([]byte("CONNECT " + host + ":8080 HTTP/1.1\r\nHost: " + host + ":8080\r\n" + hdrs(cred, via) + "\r\n"))
-	case "MITMGET":
+	case "MITMGET", "MITMGEThost":
 		method = "CONNECT"
 		var good []string
 		if c.Cfg.Auth {
 			good = credLines("exact")
 		}
-		err = cl.send([]byte("CONNECT " + host + ":443 HTTP/1.1\r\nHost: " + host + ":443\r\n" + hdrs(good) + "\r\n"))
+		if c.Req.Kind == "MITMGEThost" {
+			tunnelHost = "origin.test" // the session is opened for an ordinary host; the inner request names `host`
+		}
+		err = cl.send([]byte("CONNECT " + tunnelHost + ":443 HTTP/1.1\r\nHost: " + tunnelHost + ":443\r\n" + hdrs(good) + "\r\n"))
 	}
 	if err != nil {
 		obs.Err = err.Error()
@@ -650,10 +656,10 @@ func (pe *pipeEnv) runCase(c *pipeCase) map[string]any {
 		return res
 	}
 	obs.Phase = "outer"
-	if c.Req.Kind == "MITMGET" && final.Status == 200 {
+	if (c.Req.Kind == "MITMGET" || c.Req.Kind == "MITMGEThost") && final.Status == 200 {
 		// TLS with the proxy, then the inner request
 		_, mitmCA := harnessCAs()
-		if err := cl.startTLS(tlsClientCfg(mitmCA, host)); err != nil {
+		if err := cl.startTLS(tlsClientCfg(mitmCA, tunnelHost)); err != nil {
 			obs.Err = err.Error()
 			fail("MITM handshake failed")
 			return res
@@ -758,7 +764,7 @@ func (pe *pipeEnv) runCase(c *pipeCase) map[string]any {
 		}
 		// hop-specific shape of what the peer saw
 		for _, h := range obs.Hits {
-			if h.Kind == "request" && !h.Inner && c.Out.Hop.K == "http" && c.Req.Kind != "MITMGET" && c.Req.Kind != "CONNECT" {
+			if h.Kind == "request" && !h.Inner && c.Out.Hop.K == "http" && c.Req.Kind != "MITMGET" && c.Req.Kind != "MITMGEThost" && c.Req.Kind != "CONNECT" {
 				if !strings.HasPrefix(h.Msg.Target, "http://") {
 					fail("request to an HTTP proxy hop not in absolute form: " + h.Line)
 				}
@@ -843,7 +849,7 @@ func expectedPeer(c *pipeCase) string {
 	case "A", "B", "C":
 		return c.Out.Hop.P
 	}
-	if c.Req.Kind == "MITMGET" {
+	if c.Req.Kind == "MITMGET" || c.Req.Kind == "MITMGEThost" {
 		return "OT"
 	}
 	return "O"
